@@ -618,7 +618,7 @@ var c02FaultProfile = &sim.Profile{
 func init() {
 	register(&Check{
 		ID: "C02", Level: "exploration",
-		Rule:  "histories with an adversary who knows every password and owns accounts/phones: directed attack templates (two SMS logins in one session at gaps around the resend limit, cross-kind pending, recover-and-login, OTP login, enrolment-then-victim) interleaved with random noise, plus random walks; after every login-type request, a session that becomes a 2FA-enabled account must come from the matching validate endpoint with a TOTP code of ITS stored secret for the current 30-second period or one either side (the TOTP dependency is put on the virtual clock by the build overlay, so 'stale' probes sit exactly 2, 3, 10, 29, 31, 60 periods away), an SMS code the outbox shows was delivered to ITS registered number, or one of its unused recovery codes. Every third unit runs a second, directed history (its own PRNG): a recovery code completes a login while a storage write of that request fails, then the same code is presented again from another browser. Every 6th unit: two browsers parked at the second step of two accounts with the same factor; browser 1's validate request (its own valid code) is suspended before each of its backend calls while browser 2 posts a wrong code for the victim: browser 1's session never names the victim. distinct_nontrivial = distinct (flow, code class, account state, session state, mode, outcome) signatures on 2FA-enabled accounts.",
+		Rule:  "histories with an adversary who knows every password and owns accounts/phones: directed attack templates (two SMS logins in one session at gaps around the resend limit, cross-kind pending, recover-and-login, OTP login, enrolment-then-victim) interleaved with random noise, plus random walks; after every login-type request, a session that becomes a 2FA-enabled account must come from the matching validate endpoint with a TOTP code of ITS stored secret for the current 30-second period or one either side (the TOTP dependency is put on the virtual clock by the build overlay, so 'stale' probes sit exactly 2, 3, 10, 29, 31, 60 periods away), an SMS code the outbox shows was delivered to ITS registered number, or one of its unused recovery codes. Every third unit runs a second, directed history (its own PRNG): a recovery code completes a login while a storage write of that request fails, then the same code is presented again from another browser. Every 6th unit: two browsers parked at the second step of two accounts with the same factor; browser 1's validate request (its own valid code) is suspended before each of its backend calls while browser 2 posts a wrong code for the victim: browser 1's session never names the victim. Every 100th unit: 8 SMS accounts do the password step at the same moment on a real server, 20 rounds, with a scheduling point injected after every read of the entropy source: two or more pairs of identical codes issued simultaneously to different phones are a violation. distinct_nontrivial = distinct (flow, code class, account state, session state, mode, outcome) signatures on 2FA-enabled accounts.",
 		Units: func(t string) int { return tierN(t, 800, 25000) },
 		Run: func(c *RunCtx, unit int) {
 			if unit%6 == 5 {
